@@ -171,6 +171,23 @@ def sentence(payload, fill=0, n=1, k=1, sid=None, chan=b'A', addr=b'AIVDM', star
         line = b'\\' + tag + b'\\' + line
     return line
 
+def tag_block(rng, k=None, n=None, gid=None):
+    """the content of a realistic NMEA 4.0 TAG block (group, line count, source, time, destination, text
+    parameters in any order) with its own checksum"""
+    parts = []
+    if gid is not None or rng.random() < 0.7:
+        g = gid if gid is not None else rng.choice([0, 1, 7, 9, 42, 255, 256, 73874, 4294967295])
+        parts.append(b'g:%d-%d-%d' % (k or rng.randrange(1, 4), n or rng.randrange(1, 4), g))
+    if rng.random() < 0.5: parts.append(b'n:%d' % rng.randrange(1, 999999))
+    if rng.random() < 0.6: parts.append(b's:' + rng.choice([b'r003669945', b'AIS1', b'2573345', b'b']))
+    if rng.random() < 0.6: parts.append(b'c:%d' % rng.choice([1241544035, 1696241893, 0, 1]))
+    if rng.random() < 0.15: parts.append(b'd:' + rng.choice([b'DEST', b'1']))
+    if rng.random() < 0.15: parts.append(b't:' + rng.choice([b'text', b'1,1', b'2-2-1']))
+    if rng.random() < 0.15: parts.append(b'r:%d' % rng.randrange(0, 300))
+    rng.shuffle(parts)
+    body = b','.join(parts)
+    return body + b'*%02X' % checksum(body)
+
 def fragment(rng, payload, fill, n, sid, chan=b'A', cuts=None):
     """split an armoured payload into n sentences at random character boundaries (non-empty parts)"""
     L = len(payload)
@@ -180,8 +197,11 @@ def fragment(rng, payload, fill, n, sid, chan=b'A', cuts=None):
     parts = [payload[a:b] for a, b in zip([0] + cuts, cuts + [L])]
     out = []
     odd = rng.random() < 0.15       # occasionally a fill count on a fragment that is not the last
+    tagged = rng.choice([0, 0, 0, 1, 2])     # no TAG blocks / on every fragment / on the first only
+    gid = rng.choice([1, 9, 200, 73874])
     for i, p in enumerate(parts):
-        out.append(sentence(p, fill if i == n - 1 else (rng.randrange(6) if odd else 0), n, i + 1, sid, chan))
+        tag = tag_block(rng, i + 1, n, gid) if tagged == 1 or (tagged == 2 and i == 0) else None
+        out.append(sentence(p, fill if i == n - 1 else (rng.randrange(6) if odd else 0), n, i + 1, sid, chan, tag=tag))
     return out
 
 def random_line(rng):
@@ -215,4 +235,4 @@ def valid_sentence(rng, t=None, decode_ok=True):
     return sentence(payload, fill, chan=rng.choice([b'A', b'B', b'', b'1', b'AB']),
                     addr=rng.choice([b'AIVDM', b'AIVDO', b'ABVDM', b'BSVDM', b'SAVDO', b'XXVDM', b'AIXXX']),
                     start=rng.choice([b'!', b'!', b'$']),
-                    tag=rng.choice([None, None, None, b's:2573345,c:1696241893*00', b'']))
+                    tag=rng.choice([None, None, None, b's:2573345,c:1696241893*00', b'', tag_block(rng)]))
